@@ -8,6 +8,7 @@ import (
 
 	"context"
 
+	"github.com/freeconf/yang/fc"
 	"github.com/freeconf/yang/meta"
 	"github.com/freeconf/yang/val"
 )
@@ -613,6 +614,9 @@ func (sel *Selection) Set(v val.Value) error {
 		return fmt.Errorf("%s is not a leaf", sel.Path.Meta.Ident())
 	}
 	m := sel.Path.Meta.(meta.Leafable)
+	if v == nil {
+		return fmt.Errorf("%w. no value given to set %s", fc.BadRequestError, m.Ident())
+	}
 	r := FieldRequest{
 		Request: Request{
 			Selection: sel,
